@@ -2,19 +2,21 @@
 (* Exhaustive configurations of NodeStore.tla (TLC, BFS).  One step = one whole block (Open; Update*; Touch*; Commit)
    or one store action (Checkpoint, DeleteHist, Reopen).  Universe: 2-nibble keys over {0,1}; the genesis block holds
    {00,01,10} (extension/full root over a full node and a leaf); every block changes <= MaxTouch keys (fresh value,
-   delete, or touch); every admissible prune round [base, target) at every point.
+   delete, or touch); every admissible prune round [base, target) at every point, targets aligned to the hist
+   partition factor or not; a re-open may ask for any partition factors (the persisted layout must win).
 
    Measured (4 workers, this sandbox under load):
      MC_NodeStore_quick.cfg     4 option sets (hf 1/2, df 1/2/max, hashed / hash-skipped), 3 blocks, no fork
-                                154 255 states generated / 65 844 distinct, depth 11, 15-50 s
+                                538 067 states generated / 100 358 distinct, depth 11, 30-60 s
      MC_NodeStore_thorough.cfg  hf 1, df max, 3 blocks + one fork block (minor versions)
                                 2 255 135 generated / 726 641 distinct, 2.5-10 min
      MC_NodeStore_matrix.cfg    18 option sets (hf 1/2/max x df 1/2/max x hashed/skipped), 3 blocks
                                 807 713 generated / 340 538 distinct, ~5 min (not run by the check)
      MC_NodeStore_as.cfg        account-like trie "a" + storage-like trie "s" (root may come from the deduped space, only
                                 reached through "a", checkpointed only if its root version >= base)
-                                873 323 generated / 314 039 distinct, 1-4 min
-   RetainedReadable, PrunedNeverDifferent, NoWrongNode, RootCanonical, PrunedUnreadable hold in all of them.
+                                2 455 985 generated / 314 039 distinct, 2-4 min
+   RetainedReadable, PrunedNeverDifferent, NoWrongNode, RootCanonical, PrunedUnreadable, LayoutPersistent hold in all
+   of them (thorough / matrix numbers were measured before re-open options were added: more generated, same kind).
 
    The invariants have teeth - each deliberately broken variant below is caught (MC_NodeStore_teeth_*.cfg, not run by
    the check; `tlc -config MC_NodeStore_teeth_X.cfg MC_NodeStore.tla`):
@@ -24,13 +26,18 @@
      storage    storage-like trie written exactly at the base not checkpointed -> RetainedReadable, 15 716 states
      deepfork   a fork that branches below the target survives above it   -> PrunedNeverDifferent, 180 869 states
      rootcache  a root below the target is still in the root cache        -> NoWrongNode, 182 403 states
-     unaligned  prune target not a multiple of the hist partition factor  -> PrunedNeverDifferent, 1 455 794 states
-                (a root of the half-deleted partition survives and reads through overwritten deduped nodes)
+     roundup    DeleteHist rounds the limit partition up (deletes the partition holding an unaligned target)
+                                                                          -> RetainedReadable, 2 035 states
+     reopenlayout  a re-open composes keys with the requested factors instead of the persisted ones
+                                                                          -> RetainedReadable, 60 states
+     unaligned  InFlightReads = TRUE with unaligned targets: a root of the half-deleted partition survives below the
+                target and reads through overwritten deduped nodes        -> PrunedNeverDifferent, 1 224 431 states
      inflight   the guarantees are also demanded DURING a prune round (InFlightReads = TRUE)
                                                                           -> PrunedNeverDifferent, 544 638 states
-   deepfork / rootcache / unaligned show that the preconditions of CanPrune are needed (thor provides them through
-   awaitUntilPrunable + MaxStateHistory and the 256/8192/65536 alignment of partition factor and prune period);
-   inflight is a genuine window in the design: see InFlight in NodeStore.tla and the in-flight probe of check C12.   *)
+   deepfork / rootcache show that the preconditions of CanPrune are needed (thor provides them through
+   awaitUntilPrunable + MaxStateHistory); inflight / unaligned are the same genuine window in the design (a root below
+   the target that is still in hist while the deduped space is overwritten; with thor's 256/8192/65536 alignment of
+   partition factor and prune period only the running round is affected): see InFlight in NodeStore.tla and the in-flight probe of check C12.   *)
 EXTENDS NodeStore
 Big == BigFactor
 
@@ -45,9 +52,12 @@ BlockStep(p, f) ==
   \E touched \in {[n \in Names |-> {k \in Keys : f[<<n, k>>] # "keep"}]} :
      /\ \A n \in Names, k \in Keys : f[<<n, k>>] \in {"del", "touch"} => pc[n][k] # 0
      /\ Block(p, cur, touched)
+\* a re-open may ask for any partition factors (thor toggles 256 <-> 524288 with --disable-pruner)
+MCReqOpts == {[hf |-> h, df |-> d] : h \in {1, 2, Big}, d \in {1, Big}}
 MCNext ==
   \/ \E p \in vers : MayBuildOn(p) /\ \E f \in Changes : BlockStep(p, f)
   \/ NextStore
+  \/ \E r \in MCReqOpts : (\E n \in Names : rcache[n] # NoVer) /\ ReopenWith(r)
 MCSpec == Init /\ [][MCNext]_vars
 
 OptsOne  == {[hf |-> 1, df |-> Big, skip |-> {}]}
@@ -70,5 +80,7 @@ MutRootFromDedup(n) == TRUE                       \* root of a main trie may be 
 MutCkptSkips(v, bmaj) == v.maj <= bmaj            \* checkpoint version filter >= turned into >
 MutNoDeepFork(t, target) == TRUE                  \* a fork branching below the target survives above it
 MutStorageUnchanged(rv, bmaj) == rv.maj <= bmaj    \* storage trie written exactly at the base is not checkpointed
-MutRootCacheRecent(target) == TRUE                \* a root that is being pruned is still in the root cache
+MutRootCacheRecent(target) == TRUE
+MutDelLimit(target) == (target + use.hf - 1) \div use.hf   \* DeleteHistoryNodes rounds the limit partition up
+MutLayoutAfterReopen(persisted, requested) == requested  \* Open() uses the caller's factors, not the persisted ones                \* a root that is being pruned is still in the root cache
 ====
